@@ -57,7 +57,7 @@ static void FuncCHARFROMSTR(
 
     as_tempres_set_int(
             pResult, ((pArgs[1].Contents.Int >= 0)
-                      && ((unsigned)pArgs[1].Contents.Int < pArgs[0].Contents.str.len))
+                      && (pArgs[1].Contents.Int < (LargeInt)pArgs[0].Contents.str.len))
                              ? pArgs[0].Contents.str.p_str[pArgs[1].Contents.Int]
                              : -1);
 }
